@@ -19,6 +19,10 @@ func main() {
 		os.Exit(2)
 	}
 	prop := os.Args[1]
+	if prop == "C20SIM" && len(os.Args) >= 4 { // child process of the C20 simulation stream
+		c20SimChild(os.Args[2], os.Args[3])
+		return
+	}
 	fs := flag.NewFlagSet("harness", flag.ExitOnError)
 	seed := fs.Uint64("seed", 1, "seed")
 	tier := fs.String("tier", "quick", "tier")
